@@ -24,7 +24,7 @@ import numpy as np
 PID = "C10"
 
 ANGLE = {1: -7.5, 2: -0.8, 3: 0.0, 4: 0.6, 5: math.pi / 2, 6: 2.2, 7: math.pi, 8: 4.0, 9: 7.0}
-SIZE_X = {"tiny": 0.1, "small": 2.0, "medium": 8.0, "large": 40.0, "beyond_solver_limit": 150.0}
+SIZE_X = {"tiny": 0.1, "small": 2.0, "medium": 8.0, "large": 40.0, "beyond_solver_limit": 150.0, "astronomical": 3e9}
 WL, NMED = 0.66, 1.33
 K = 2 * math.pi * NMED / WL
 
@@ -150,7 +150,7 @@ def run(ctx):
         if outcome == "timeout":
             raise harness.MachineryError("child timed out on %r" % (c,))
         ctx.case(("call", tuple(sorted(c.items()))),
-                 nontrivial=c["b"] not in (3, 4, 5, 6, 7) or c["g"] in (1, 2, 9) or c["size"] == "beyond_solver_limit")
+                 nontrivial=c["b"] not in (3, 4, 5, 6, 7) or c["g"] in (1, 2, 9) or c["size"] in ("beyond_solver_limit", "astronomical"))
         traces.append([{"event": "Call", "shape": c["shape"], "size": c["size"], "absorbing": bool(c["absorbing"]),
                         "a": c["a"], "b": c["b"], "g": c["g"], "outcome": outcome,
                         "must_be_finite": bool(must), "detail": str(r.get("exc", r.get("exit_status", "")))[:120]}])
